@@ -603,7 +603,8 @@ def c11(ctx):
 # ----------------------------------------------------------------------------- C10 / C12 histories
 
 HIST_TEXTS = ["2+", "2+#", "4x$", "2x+1", "(", "4x^2", "1.2.3", "#", "", "x=1", "sgn(x)", "2 + 3", "12", "1 2", "s gn(x)", "2x + 1",
-              "2 x+1", "4 + * 3", "2x)", "(x", " 2+", "x = 1", "1 . 5", "1.5", "2+ ", "SGN(x)"]
+              "2 x+1", "4 + * 3", "2x)", "(x", " 2+", "x = 1", "1 . 5", "1.5", "2+ ", "SGN(x)",
+              "-3x + 2", "2x^-3 = y * -1.5", "-3 *", "(-12 + a) / b", "-x", "4!", "x - 3"]
 
 
 def run_history(ops):
